@@ -312,6 +312,22 @@ L_B:
   s_endpgm
 """
 
+K['k15_uncoalesced_64_lines_per_load'] = PRO + """
+  s_load_dwordx2 s[8:9], s[0:1], 0x0
+  v_and_b32 v4, 63, v0
+  v_lshlrev_b32 v5, 6, v4
+  s_waitcnt lgkmcnt(0)
+  v_add_u32 v10, vcc, s8, v5
+  v_mov_b32 v11, s9
+  v_addc_u32 v11, vcc, 0, v11, vcc
+  flat_load_dword v6, v[10:11]
+  s_waitcnt vmcnt(0)
+""" + gaddr('v7','v8','s4','s5') + """
+  flat_store_dword v[7:8], v6
+  s_waitcnt vmcnt(0)
+  s_endpgm
+"""
+
 def assemble(name, src, mcpu='gfx803'):
     p = subprocess.run(['llvm-mc-14', '-arch=amdgcn', '-mcpu=' + mcpu, '-show-encoding'], input=src, capture_output=True, text=True)
     if p.returncode != 0 or 'error' in p.stderr:
